@@ -2,6 +2,9 @@ package consensus_sim
 
 import (
 	"time"
+
+	cons "github.com/gnolang/gno/tm2/pkg/bft/consensus"
+	"github.com/gnolang/gno/tm2/pkg/bft/types"
 )
 
 // simnet: the message-passing layer that replaces the p2p switch. A message is
@@ -19,6 +22,65 @@ type simnet struct {
 	stabAt  time.Duration
 	perfect bool // after a missed liveness bound: every message instantly to everyone
 	omni    bool // after a second miss: the gossip stub additionally offers what NO reactor rule would keep from a peer (see antiEntropy)
+	adv     *advNet // knob adv: an adversarial scheduler for the fault phase (nil = off)
+}
+
+// advNet: the network adversary of the fault phase (asynchrony is the adversary's to use before the
+// stabilisation point). Per (height, round) it picks one honest "victim": prevotes reach the victim fast and the
+// others late (so the victim alone sees the polka and locks, the others time out), the proposal of that round
+// may reach the victim late (so that it relocks / precommits on a polka without the proposal), precommits reach
+// the others late. Together with the byzantine stale-polka hand-over this drives many rounds per height with
+// lock / relock / unlock transitions. Every decision is a tape draw.
+type advNet struct {
+	victims   [8]int // index into s.nodes per (height*3+round) mod 8
+	pPrevote  int    // per mille: delay a prevote addressed to a non-victim
+	pProposal int    // per mille: delay a proposal / block part addressed to the victim
+	pPrecomm  int    // per mille: delay a precommit addressed to a non-victim
+	delay     time.Duration
+}
+
+func (a *advNet) extra(s *sim, to *node, m *netMsg) time.Duration {
+	var h int64
+	var r int
+	kind := 0 // 1 prevote, 2 precommit, 3 proposal/part
+	switch x := m.msg.(type) {
+	case *cons.VoteMessage:
+		if x.Vote == nil {
+			return 0
+		}
+		h, r = x.Vote.Height, x.Vote.Round
+		kind = 1
+		if x.Vote.Type == types.PrecommitType {
+			kind = 2
+		}
+	case *cons.ProposalMessage:
+		if x.Proposal == nil {
+			return 0
+		}
+		h, r, kind = x.Proposal.Height, x.Proposal.Round, 3
+	case *cons.BlockPartMessage:
+		h, r, kind = x.Height, x.Round, 3
+	default:
+		return 0
+	}
+	if r < 0 || len(s.nodes) == 0 {
+		return 0
+	}
+	victim := s.nodes[a.victims[(int(h%1000)*3+r)%len(a.victims)]%len(s.nodes)]
+	pm := 0
+	switch {
+	case kind == 1 && to != victim:
+		pm = a.pPrevote
+	case kind == 2 && to != victim:
+		pm = a.pPrecomm
+	case kind == 3 && to == victim:
+		pm = a.pProposal
+	}
+	if pm > 0 && s.c.Chance(pm, 1000) {
+		s.r.Fault("adv_delay")
+		return a.delay
+	}
+	return 0
 }
 
 type partition struct {
@@ -85,6 +147,9 @@ func (nt *simnet) send(from int, to *node, m *netMsg) {
 		}
 	}
 	d := nt.delay()
+	if nt.adv != nil && nt.faultsOn(at) {
+		d += nt.adv.extra(s, to, m)
+	}
 	s.schedule(at+d, to.id, func() { s.deliver(to, from, m) })
 	if storm && s.c.Chance(nt.dupPm, 1000) {
 		s.r.Fault("duplicate")
